@@ -241,7 +241,43 @@ def shard_generic(arg):
     return rep
 
 
+def shard_mub_states(arg):
+    """tomography of the library's own MUB basis states: the preparation circuit is the inverse of readout circuit i (followed by
+    one extra single-qubit gate), so preparation and readout meet in gates that undo each other -- the natural calibration
+    experiment, and the input on which any clean-up at the seam between the two parts acts"""
+    n, name, indices, seed = arg
+    L = libif.lib()
+    rep = fw.Report()
+    try:
+        circs = L.mub.get_mub_circuits(n, name)
+    except Exception:  # noqa: BLE001  (C09's business)
+        return rep
+    for i in indices:
+        if i >= len(circs):
+            continue
+        rng = fw.rng_for("c10mub", seed, n, name, i)
+        ops = libif.ops_of(circs[i])
+        try:
+            inv = [[o[0], list(o[1])] for o in dense.inverse_ops(ops)]
+        except dense.UnknownGate:
+            continue
+        two = [o for o in ops if len(o[1]) == 2]
+        extra_q = two[0][1][1] if (two and rng.random() < 0.7) else rng.randrange(n)
+        prep = inv + [[rng.choice(["h", "s", "t", "h"]), [extra_q]]]
+        case = {"n": n, "connectivity": name, "components": [{"w": [1, 1], "ops": prep}], "zero_seed": i}
+        fails, want = check_tomography(case)
+        rep.case((n, name, "mub-state", i) if (want is not None and interesting(want, n)) else None,
+                 dict(case, state=f"inverse of MUB circuit {i} + one gate") if (i == indices[0] and n == 3) else None)
+        rep.count("config", f"{n}-{name}")
+        rep.count("state_kind", "pure(MUB basis state + one gate)")
+        for key, msg, extra in fails:
+            rep.fail(key, case, msg + f" [preparation = inverse of MUB circuit {i} + one gate]", **extra)
+    return rep
+
+
 def shard_any(arg):
+    if arg[0] == "mub":
+        return shard_mub_states(arg[1:])
     if arg[0] == "generic":
         return shard_generic(arg[1:])
     if arg[0] == "rank":
@@ -265,6 +301,15 @@ def run(ctx):
             args.append(("rank", n, name, {2: 24, 3: 160, 4: 600}[n], ctx.seed * 1000 + 500 + n))
     for (n, name) in coupling.CONFIGS:
         args.append(("generic", n, name, (2 if n <= 4 else 1) * (1 if q else 12), ctx.seed))
+    for (n, name) in coupling.CONFIGS:
+        total = (1 << n) + 1
+        if q:
+            rng = fw.rng_for("c10mubsel", ctx.seed, n, name)
+            idx = list(range(total)) if n <= 4 else sorted(rng.sample(range(total), 6 if n == 5 else 3))
+        else:
+            idx = list(range(total))
+        for chunk in fw.split(idx, 1 if n <= 4 else (2 if q else 11)):
+            args.append(("mub", n, name, chunk, ctx.seed))
     for n in (2, 3, 4, 5, 6):
         args.append(("sequence", n, {2: 3, 3: 3, 4: 2, 5: 1, 6: 1}[n] * (1 if q else 10), ctx.seed))
     args.sort(key=lambda a: 0 if (a[0] == "sequence" and a[1] >= 5) else (1 if (a[0] == "generic" and a[1] == 6) else 2))
